@@ -420,13 +420,13 @@ func (s *Stage) envAction(e world.EnvEvent) func() {
 			_ = os.WriteFile(s.worldPath(e.Path), []byte(e.Text), 0644)
 		case "remove":
 			_ = os.Remove(s.worldPath(e.Path))
-			s.W.FaultsFired["file.removed"]++
+			s.W.CountFault("file.removed")
 		case "chmod":
 			_ = os.Chmod(s.worldPath(e.Path), os.FileMode(e.Value))
-			s.W.FaultsFired["perm.flip"]++
+			s.W.CountFault("perm.flip")
 		case "chown":
 			_ = os.Chown(s.worldPath(e.Path), e.Value/100000, e.Value%100000)
-			s.W.FaultsFired["perm.flip"]++
+			s.W.CountFault("perm.flip")
 		default:
 			if s.ExtraEnv != nil {
 				if fn := s.ExtraEnv(e); fn != nil {
